@@ -1,7 +1,9 @@
 /-
   Driver/Links.lean — whole-engine link cases (C02).
-  header: `<id> links <hosts> <cores> <S|F|A> <n> <shuffle|group> <ts>`; ops: `i <source> <value>`.
-  outputs: `sent <p> <c> …`, `recv <p> <c> …`, `probe <p> <c> …` (see harness/src/bin/links.rs).
+  header: `<id> links <hosts> <cores> <S|F|A> <n> <shuffle|group|bcast|split|join> <ts>`;
+  ops: `i <source> <value>`, `j <source> <value>` (right input of join), `stall <ms>`.
+  outputs: `sent <p> <c> …`, `recv <p> <c> …`, `probe <p> <c> …`, `joined <c> …`, `misrouted …`
+  (see harness/src/bin/links.rs).
 
   What the producers hand to the links (`sent` lines) depends on routing and timing and is an
   *input* here. From it the Link model (batchers re-run from the element sequences, every
@@ -67,14 +69,39 @@ def opsOfBatch (adaptive : Bool) (n : Nat) (b : List (Elem Val)) : List (Batcher
     let timer := adaptive && i == lastIdx && b.length < n && !e.isFar && !e.isTerm
     Batcher.opsOfElem timer e
 
+/-- the payload is stamped `(block, host, replica, seq, value)` by producer `p` itself: the link is
+    the one right after the stamping map, whose consumer block has the probe sink -/
+def stampedBy (p : Coord) : Elem Val → Bool
+  | .item (.tup [.int b, .int h, .int r, _, _]) | .ts (.tup [.int b, .int h, .int r, _, _]) _ =>
+    b == p.block && h == p.host && r == p.replica
+  | _ => false
+
+/-- join key of the harness: `value.rem_euclid(3)` -/
+def joinKey (v : Val) : Int := ((lastInt v).getD 0) % 3
+
+def sortS (l : List String) : List String := (l.toArray.qsort (· < ·)).toList
+
+/-- the pairs an inner equi-join of what consumer `c` got from the left block (smaller id) and the
+    right block must produce, as sorted text -/
+def joinPairs (got : List (Nat × Val)) : List String :=
+  match (got.map (·.1)).min? with
+  | none => []
+  | some lb =>
+    let ls := (got.filter (·.1 == lb)).map (·.2)
+    let rs := (got.filter (·.1 != lb)).map (·.2)
+    sortS (ls.flatMap fun l => (rs.filter fun r => joinKey l == joinKey r).map fun r => s!"({l.toStr},{r.toStr})")
+
 def handle (c : Case) : Verdict :=
   match c.header with
-  | [_, _, hosts, _cores, mode, n, kind, _ts] =>
+  | [_, _, hosts, cores, mode, n, kind, _ts] =>
     let n := n.toNat?.getD 1
+    let replicas := hosts.toNat?.getD 1 * cores.toNat?.getD 1
     let m : Batcher.Mode := match mode with | "S" => .single | "F" => .fixed n | _ => .adaptive n
     let sentL := parseLines "sent" c.implOut
     let recvL := parseLines "recv" c.implOut
     let probeL := parseLines "probe" c.implOut
+    let joinedL := c.implOut.filterMap fun l => match words l with
+      | "joined" :: cc :: toks => some (cc, toks) | _ => none
     -- parsed sent lines: producer, endpoint, batches
     let sent := sentL.filterMap fun l => do
       let p ← parseCoord l.p
@@ -87,19 +114,31 @@ def handle (c : Case) : Verdict :=
         (opsOfBatch (mode == "A") n b).flatMap fun op =>
           [.batcher p ep op, .muxSend (connOf p ep), .demux (connOf p ep), .recv ep]
     let s := Link.run (fun _ => m) State.init moves
-    let modelRecv := sent.map fun (l, p, ep, _) =>
+    -- (`join`: no receive events, see the harness)
+    let modelRecv := if kind == "join" then [] else sent.map fun (l, p, ep, _) =>
       let msgs := (s.delivered ep).filter (fun x => x.src == p)
       " ".intercalate (["recv", l.p, l.c] ++ joinBatches (msgs.map fun x => x.body.map kindOf))
-    let modelProbe := sent.filterMap fun (l, p, ep, _) =>
-      let pl := (deliveredFrom s p ep).filterMap payloadOf
+    let modelProbe := if kind == "join" then [] else sent.filterMap fun (l, p, ep, _) =>
+      let pl := ((deliveredFrom s p ep).filter (stampedBy p)).filterMap payloadOf
       if pl.isEmpty then none else some (" ".intercalate (["probe", l.p, l.c] ++ pl))
+    -- join: per consumer replica, the equi-join of what the model delivered to it from both blocks
+    let consumers := (sent.map fun (l, _, ep, _) => (l.c, ep.block, ep.host, ep.replica)).eraseDups
+    let modelJoined := if kind != "join" then [] else consumers.filterMap fun (cs, b, h, r) =>
+      let got := sent.flatMap fun (_, p, ep, _) =>
+        if ep.block == b && ep.host == h && ep.replica == r then
+          (deliveredFrom s p ep).filterMap fun e => e.value.map fun v => (p.block, v)
+        else []
+      let ps := joinPairs got
+      if ps.isEmpty then none else some (" ".intercalate (["joined", cs] ++ ps))
     let out := sentL.map (fun l => " ".intercalate (["sent", l.p, l.c] ++ l.toks)) ++ modelRecv ++ modelProbe
+      ++ modelJoined
     -- spec-side oracle: per pair, received = sent (kinds with batch boundaries; data payloads)
     let find (ls : List Line) (p cc : String) := ls.find? (fun l => l.p == p && l.c == cc)
-    let pairErr := sent.findSome? fun (l, _, _, batches) =>
+    let pairErr := sent.findSome? fun (l, p, _, batches) =>
       let wantK := joinBatches (batches.map fun b => b.map kindOf)
-      let wantP := batches.flatten.filterMap payloadOf
-      match find recvL l.p l.c with
+      -- the consumer-side payload order is observed on the links right after a stamping map
+      let wantP := if kind == "join" then [] else (batches.flatten.filter (stampedBy p)).filterMap payloadOf
+      match (if kind == "join" then some ⟨l.p, l.c, wantK⟩ else find recvL l.p l.c) with
       | none => some s!"{l.p}->{l.c}: nothing received"
       | some r =>
         if r.toks != wantK then some s!"{l.p}->{l.c}: received {r.toks} but {wantK} was sent"
@@ -108,16 +147,36 @@ def handle (c : Case) : Verdict :=
           if gotP != wantP then some s!"{l.p}->{l.c}: consumer saw {gotP} but {wantP} was sent"
           else none
     let stray := (recvL ++ probeL).find? fun l => (find sentL l.p l.c).isNone
-    let values := c.ops.filterMap fun w => match w with | ["i", _, v] => v.toInt? | _ => none
+    -- join (spec side, from the implementation's `sent` lines): every consumer replica's sink saw
+    -- exactly the equi-join of what was sent to it by the two blocks
+    let joinErr := if kind != "join" then none else consumers.findSome? fun (cs, b, h, r) =>
+      let got := sent.flatMap fun (_, p, ep, batches) =>
+        if ep.block == b && ep.host == h && ep.replica == r then
+          batches.flatten.filterMap fun e => e.value.map fun v => (p.block, v)
+        else []
+      let want := joinPairs got
+      let impl := ((joinedL.find? (·.1 == cs)).map (·.2)).getD []
+      if impl != want then some s!"{cs}: joined {impl.length} pairs, the elements sent to it join to {want.length}" else none
+    let strayJoined := joinedL.find? fun (cs, _) => kind != "join" || !(consumers.any (·.1 == cs))
+    let misrouted := c.implOut.find? (·.startsWith "misrouted")
+    -- every value the sources produced crosses each link level exactly once (`bcast`: once per
+    -- consumer replica; `split`: four links)
+    let mult := if kind == "bcast" then replicas else if kind == "split" then 4 else 1
+    let values := (c.ops.filterMap fun w => match w with
+      | ["i", _, v] => v.toInt?
+      | ["j", _, v] => if kind == "join" then v.toInt? else none
+      | _ => none).flatMap fun v => List.replicate mult v
     let sentValues := sent.flatMap fun (_, _, _, batches) =>
       batches.flatten.filterMap fun e => e.value.bind lastInt
     let sortI (l : List Int) := (l.toArray.qsort (· < ·)).toList
     let oracle :=
       if c.implOut.any (·.startsWith "panic") then some s!"engine run failed: {c.implOut}"
       else if sent.length ≠ sentL.length then some "unparsable sent line"
-      else match pairErr with
+      else if misrouted.isSome then some s!"{misrouted.getD ""}: batch on the endpoint of another previous block"
+      else match pairErr.orElse (fun _ => joinErr) with
         | some e => some e
         | none =>
+          if strayJoined.isSome then some "joined output on a replica that was sent nothing" else
           match stray with
           | some l => some s!"{l.p}->{l.c}: received without a matching send"
           | none =>
@@ -126,7 +185,7 @@ def handle (c : Case) : Verdict :=
     let dataPairs := (sent.filter fun (_, _, _, batches) => batches.flatten.any Elem.isData).length
     let remotePairs := (sent.filter fun (_, p, ep, _) => isRemote p ep).length
     { out, oracle, nontrivial := dataPairs ≥ 2,
-      tags := [s!"hosts{hosts}", s!"mode{mode}{if mode == "F" then toString n else ""}", kind,
+      tags := ["nodiff-sent", s!"hosts{hosts}", s!"mode{mode}{if mode == "F" then toString n else ""}", kind,
                s!"remotePairs{if remotePairs == 0 then "0" else "+"}", s!"dataPairs{min dataPairs 4}"] }
   | _ => { out := [], oracle := some "bad header", nontrivial := false }
 
